@@ -26,7 +26,7 @@ TLEN = {None: "Short", "full": "Full", "long": "Long", "medium": "Medium", "shor
 LTYPE = {None: "Unit", "and": "And", "or": "Or", "unit": "Unit", "bogus": "Unit"}
 LSTYLE = {None: "Wide", "wide": "Wide", "short": "Short", "narrow": "Narrow", "bogus": "Wide"}
 CWIDTH = {None: "Short", "short": "Short", "narrow": "Narrow", "bogus": "Short"}
-CCODE = {None: "USD", "EUR": "EUR", "JPY": "JPY", "usd": "usd", "ABCD": "USD", "éé": "USD"}
+CCODE = {None: "USD", "EUR": "EUR", "JPY": "JPY", "CAD": "CAD", "usd": "usd", "ABCD": "USD", "éé": "USD"}
 
 
 def configs():
@@ -160,7 +160,7 @@ def e2e_stage(res, tier, seed):
     cfgs = configs()
     if tier == "quick":
         # every option value at least once, a sample of the products
-        keep = [c for c in cfgs if c[0] in ("number", "date", "time")] + rng.sample([c for c in cfgs if c[0] == "currency"], 8) + \
+        keep = [c for c in cfgs if c[0] in ("number", "date", "time", "currency")] + \
             rng.sample([c for c in cfgs if c[0] == "datetime"], 6) + rng.sample([c for c in cfgs if c[0] == "list"], 10)
         cfgs = keep
     locs = LOCALES if tier == "thorough" else ["en", "fr", "ar", "ja", "es"]
